@@ -653,7 +653,22 @@ def _callbacks(rep, model, rule='R3', final_only=False, floor=10):
         return [e.fun('f', e.X), x], {'line_search': Rat.var('step'),
                                       'maxiter': n}
 
+    FB = 'odl/solvers/nonsmooth/forward_backward.py'
+    DR = 'odl/solvers/nonsmooth/douglas_rachford.py'
+
+    def fbpd(e, x, n, **kw):
+        return [x, e.fun('f', e.X), [e.fun('g0', e.Y)],
+                [e.I.opsym('L0', e.X, e.Y, True)], e.fun('h', e.X),
+                Rat.var('tau'), [Rat.var('sigma0')], n], {}
+
+    def drpd(e, x, n, **kw):
+        return [x, e.fun('f', e.X), [e.fun('g0', e.Y)],
+                [e.I.opsym('L0', e.X, e.Y, True)], n], {
+                    'tau': Rat.var('tau'), 'sigma': [Rat.var('sigma0')]}
+
     cases = [
+        (FB, 'forward_backward_pd', fbpd, None, 1),
+        (DR, 'douglas_rachford_pd', drpd, None, 1),
         (ITER, 'landweber', landweber, None, 1),
         (ITER, 'landweber', landweber_proj, None, 1),
         (ITER, 'kaczmarz', kaczmarz_proj, 'outer', 1),
